@@ -5,6 +5,7 @@ import EaselModel.Msafile.Afa
 import EaselModel.Msafile.A2m
 import EaselModel.Msafile.Clustal
 import EaselModel.Msafile.Psiblast
+import EaselModel.Msafile.Phylip
 import EaselModel.Msafile.Dump
 /-! Line-protocol driver for the C01 model: `parse fmt=… abc=… src=… ps=… hex=…` (source and page size are irrelevant
     to the model: it sits on the abstract line reader).  Formats / modes without a model answer `unmodelled`. -/
@@ -36,6 +37,10 @@ def parseOp (ws : List String) : String :=
       "open=ok fmt=clustallike abc=" ++ abcName abc ++ readAll (clustalRead true (clustalCfg abc)) 64 lines
     else if fmt == "psiblast" then
       "open=ok fmt=psiblast abc=" ++ abcName abc ++ readAll (psiblastRead (psiblastCfg abc)) 64 lines
+    else if fmt == "phylip" then
+      "open=ok fmt=phylip abc=" ++ abcName abc ++ readAll (phylipRead false (phylipCfg abc)) 64 lines
+    else if fmt == "phylips" then
+      "open=ok fmt=phylips abc=" ++ abcName abc ++ readAll (phylipRead true (phylipCfg abc)) 64 lines
     else "unmodelled"
   | _, _, _ => "unmodelled"
 
